@@ -141,7 +141,9 @@ def label_mix(draw, epoch, n):
     """time-scale labels of the n further dates of a message (None = the label of the epoch): one message in
     four carries dates with other labels (same instants; the writers convert to the declared TIME_SYSTEM).
     Not next to a leap second: the library documents that it does not handle them."""
-    if epoch.get("kind") == "leap" or n == 0 or draw(st.sampled_from(range(4))) != 0:
+    near_leap = any(abs(epoch["us"] - int((datetime.strptime(day, "%Y-%m-%d") - T0).total_seconds()) * 10**6)
+                    < 2 * 86400 * 10**6 for day in LEAP_DAYS)
+    if near_leap or n == 0 or draw(st.sampled_from(range(4))) != 0:
         return [None] * n
     return [draw(st.sampled_from([None] + SCALES)) for _ in range(n)]
 
